@@ -276,8 +276,34 @@ def state_digest(sim) -> str:
     return project.digest(sim) + project.described(sim)
 
 
-def req_event(path, leaf, executed, status, reason, pre, post, mask="na", action=False, exist=False) -> Dict[str, Any]:
+def addresses_absent(sim, req) -> bool:
+    """Ground truth from the simulator's COMPONENT tables (never from the request routes): does this request address,
+    by name, an application / service / folder / file of an existing node that does not exist right now?  (Requests that
+    bring a component into being - install, create, restore - address the manager, not the component: False.)"""
+    try:
+        r = [str(x) for x in req]
+        if len(r) < 5 or r[0] != "network" or r[1] != "node":
+            return False
+        node = sim.network.get_node_by_hostname(r[2])
+        if node is None:
+            return False
+        if r[3] in ("application", "service"):
+            table = node.applications if r[3] == "application" else node.services
+            return not any(sw.name == r[4] for sw in table.values())
+        if r[3] == "file_system" and r[4] == "folder" and len(r) >= 7 and "restore" not in r[5:]:
+            fo = next((f for f in node.file_system.folders.values() if f.name == r[5]), None)
+            if fo is None:
+                return True
+            if r[6] == "file" and len(r) >= 9:
+                return not any(f.name == r[7] for f in fo.files.values())
+        return False
+    except Exception:  # noqa - no claim
+        return False
+
+
+def req_event(path, leaf, executed, status, reason, pre, post, mask="na", action=False, exist=False, gone=False) -> Dict[str, Any]:
     return {
+        "gone": bool(gone),
         "ev": "Req",
         "path": [{"present": bool(p["present"]), "guard": bool(p["guard"])} for p in path],
         "leaf": bool(leaf),
